@@ -217,6 +217,12 @@ impl Peer {
     ) -> PieceCmd {
         match chosen_index {
             Some(chosen_index) => {
+                // Peer is choking us, so nothing can be requested (and reserved) now
+                if self.choked {
+                    self.piece_index = None;
+                    return PieceCmd::Ignore;
+                }
+
                 pieces_status[chosen_index] = match pieces_status[chosen_index] {
                     Status::Reserved(peers_count) => Status::Reserved(peers_count + 1),
                     Status::Missing => Status::Reserved(1),
@@ -224,10 +230,7 @@ impl Peer {
                 };
 
                 self.piece_index = Some(chosen_index);
-                match self.choked {
-                    true => PieceCmd::Ignore,
-                    false => PieceCmd::SendRequest(req_data(&metainfo, chosen_index)),
-                }
+                PieceCmd::SendRequest(req_data(&metainfo, chosen_index))
             }
             None => {
                 self.piece_index = None;
